@@ -33,6 +33,11 @@ def run_decoder(chunks, max_payload, return_bytes=True, return_offset=True, use_
             kw['warn_on_error'] = w
     dec = FusionEngineDecoder(max_payload_len_bytes=max_payload, return_bytes=return_bytes,
                               return_offset=return_offset, **kw)
+    # other decoder objects alive at the same time, constructed afterwards with other limits and used in between:
+    # decoders must be independent of each other
+    others = [FusionEngineDecoder(max_payload_len_bytes=m2, warn_on_error='none') for m2 in (1 << 24, 0, 8)] \
+        if (opts or {}).get('second_decoder', True) else []
+    seen_lists = []
     cb = []
     if use_callback:
         dec.add_callback(None, lambda *a: cb.append(a))
@@ -55,6 +60,12 @@ def run_decoder(chunks, max_payload, return_bytes=True, return_offset=True, use_
             else:
                 arg = bytes(ch)
             res = dec.on_data(arg)
+            for k, o in enumerate(others):
+                o.on_data(b'\x2e\x31\x00' if k % 2 else b'\x07')
+            if any(res is l for l in seen_lists) or any(r == ('caller-owned',) for r in res):
+                return calls, flat, 'SharedResult: on_data returned the very list object an earlier call returned (a caller ' \
+                                    'extending its result in place changes what later calls return)', cb
+            seen_lists.append(res)
             if form == 'ba_wipe':
                 for i in range(len(arg)):
                     arg[i] = 0x2e
@@ -74,6 +85,8 @@ def run_decoder(chunks, max_payload, return_bytes=True, return_offset=True, use_
             flat.append(d)
             if return_bytes and return_offset:
                 pairs.append('%d:%d' % (d['offset'], len(d['raw'])))
+        if isinstance(res, list):
+            res.append(('caller-owned',))        # the caller owns the returned list and may extend it
         calls.append('%s|%d|%d|%d' % (','.join(pairs), len(dec._buffer), 0 if dec._header is None else 1,
                                       dec._bytes_processed))
     return calls, flat, None, cb
